@@ -528,16 +528,177 @@ func PathNilness(v ssa.Value) (Nilness, bool) {
 	return n, ok && n != MaybeNil
 }
 
-// PathConst reports the integer constant the path currently being explored knows v (a phi) to carry.
+// curStack is the chain of expanded calls the instruction currently offered to a rule's predicate runs under.
+var curStack []rframe
+
+// PathConst reports the integer constant v is known to carry on the path currently being explored: a constant, a phi
+// that took a constant on this path, a parameter of an expanded helper whose argument in the current calling context
+// is such a constant, or an element of a constant package-level table selected by such a constant.
 func PathConst(v ssa.Value) (string, bool) {
+	return pathConst(v, curStack, 0)
+}
+
+func pathConst(v ssa.Value, stack []rframe, depth int) (string, bool) {
+	if v == nil || depth > 6 {
+		return "", false
+	}
 	if cv := ConstVal(v); cv != nil {
 		return cv.ExactString(), true
 	}
-	if curPath == nil {
+	if curPath != nil {
+		if k, ok := curPath.consts[v]; ok && k != "" {
+			return k, true
+		}
+	}
+	switch x := v.(type) {
+	case *ssa.Parameter:
+		g := x.Parent()
+		for i := len(stack) - 1; i >= 0; i-- {
+			if stack[i].callee != g {
+				continue
+			}
+			for j, p := range g.Params {
+				if p == x {
+					if a := ArgForParam(stack[i].call, j); a != nil {
+						return pathConst(a, stack[:i], depth+1)
+					}
+				}
+			}
+			break
+		}
+	case *ssa.Convert:
+		if b, ok := x.X.Type().Underlying().(*types.Basic); ok && b.Info()&types.IsInteger != 0 {
+			return pathConst(x.X, stack, depth+1)
+		}
+	case *ssa.ChangeType:
+		return pathConst(x.X, stack, depth+1)
+	case *ssa.UnOp:
+		if x.Op == token.MUL {
+			return tableConst(x.X, stack, depth)
+		}
+	}
+	return "", false
+}
+
+// tableConst: the constant stored at an address inside a package-level table (array or slice literal of the package's
+// initialiser that nothing else writes), when the indices on the way are constants on this path.
+func tableConst(addr ssa.Value, stack []rframe, depth int) (string, bool) {
+	var steps []string
+	a := addr
+	var g *ssa.Global
+	for i := 0; i < 8 && g == nil; i++ {
+		switch x := a.(type) {
+		case *ssa.FieldAddr:
+			steps = append([]string{fmt.Sprintf(".%d", x.Field)}, steps...)
+			a = x.X
+		case *ssa.IndexAddr:
+			k, ok := pathConst(x.Index, stack, depth+1)
+			if !ok {
+				return "", false
+			}
+			steps = append([]string{"[" + k + "]"}, steps...)
+			a = x.X
+		case *ssa.UnOp:
+			// a slice-typed table: the global holds the slice
+			if x.Op != token.MUL {
+				return "", false
+			}
+			a = x.X
+		case *ssa.Global:
+			g = x
+		default:
+			return "", false
+		}
+	}
+	if g == nil || theProg == nil || !theProg.InModuleGlobal(g) {
 		return "", false
 	}
-	k, ok := curPath.consts[v]
-	return k, ok && k != ""
+	tbl := constTable(g)
+	if tbl == nil {
+		return "", false
+	}
+	k, ok := tbl[strings.Join(steps, "")]
+	return k, ok
+}
+
+var constTableCache = map[*ssa.Global]map[string]string{}
+
+// constTable maps element paths ("[2].1") of a package-level array/slice literal to the integer/bool constants stored
+// there by the package initialiser; nil when the variable is written anywhere else (not a constant table).
+func constTable(g *ssa.Global) map[string]string {
+	if t, ok := constTableCache[g]; ok {
+		return t
+	}
+	constTableCache[g] = nil
+	if g.Pkg == nil {
+		return nil
+	}
+	ini := g.Pkg.Func("init")
+	if ini == nil {
+		return nil
+	}
+	// backing arrays of slice literals stored into g
+	roots := map[ssa.Value]bool{g: true}
+	Instrs(ini, func(in ssa.Instruction) {
+		if st, ok := in.(*ssa.Store); ok && st.Addr == ssa.Value(g) {
+			if sl, ok := st.Val.(*ssa.Slice); ok {
+				roots[sl.X] = true
+			}
+		}
+	})
+	for _, fn := range pkgFns(g.Pkg.Pkg) {
+		if fn == ini {
+			continue
+		}
+		bad := false
+		Instrs(fn, func(in ssa.Instruction) {
+			switch x := in.(type) {
+			case *ssa.Store:
+				if r := addrRoot(x.Addr); r == ssa.Value(g) {
+					bad = true
+				} else if u, ok := r.(*ssa.UnOp); ok && u.Op == token.MUL && u.X == ssa.Value(g) {
+					bad = true // store through the slice held by g
+				}
+			}
+		})
+		if bad {
+			return nil
+		}
+	}
+	tbl := map[string]string{}
+	Instrs(ini, func(in ssa.Instruction) {
+		st, ok := in.(*ssa.Store)
+		if !ok {
+			return
+		}
+		var steps []string
+		a := st.Addr
+		for i := 0; i < 8; i++ {
+			switch x := a.(type) {
+			case *ssa.FieldAddr:
+				steps = append([]string{fmt.Sprintf(".%d", x.Field)}, steps...)
+				a = x.X
+				continue
+			case *ssa.IndexAddr:
+				cv := ConstVal(x.Index)
+				if cv == nil {
+					return
+				}
+				steps = append([]string{"[" + cv.ExactString() + "]"}, steps...)
+				a = x.X
+				continue
+			}
+			break
+		}
+		if !roots[a] || len(steps) == 0 {
+			return
+		}
+		if cv := ConstVal(st.Val); cv != nil {
+			tbl[strings.Join(steps, "")] = cv.ExactString()
+		}
+	})
+	constTableCache[g] = tbl
+	return tbl
 }
 
 // relevantPhi: the phi's value ends up returned or stored (possibly through another phi or an interface conversion).
